@@ -22,9 +22,9 @@ func TestC20(t *testing.T) {
 		"chain-simulator histories (real txs through DeliverTx) of 8-20 blocks with 0-4 txs each over a generated world (1-3 genesis apps, 5 funded candidate keys with "+
 			"balances around the stake amounts, fresh keys, strangers; unstaking time 0/5/20 s; block time steps 0-40 s): new stakes, edit-stakes (bump / same / lower), "+
 			"transfers (to fresh, funded, existing, same key; by current app / stranger / forged pubkey / new key), begin-unstakes (half of them aimed at applications transferred or bumped earlier), gov param changes, sends. "+
-			"Oracle after every Commit: balance of the application staked pool (auth store) == sum of StakedTokens over raw application records with status Staked or Unstaking. "+
+			"between blocks the node sometimes answers an application lookup at a past height (RPC query route). Oracle after every Commit: balance of the application staked pool (auth store) == sum of StakedTokens over raw application records with status Staked or Unstaking. "+
 			"non-trivial = an application that was the target of a successful transfer or a successful stake bump later completes unstaking (record removed at maturity) in the same history",
-		map[string]float64{"transfer-ok": 0.4, "edit-bump-ok": 0.4, "unstake-completed": 0.6, "transfer-then-unstake-completed": 0.1, "bump-then-unstake-completed": 0.1},
+		map[string]float64{"transfer-ok": 0.4, "edit-bump-ok": 0.4, "unstake-completed": 0.6, "transfer-then-unstake-completed": 0.1, "bump-then-unstake-completed": 0.1, "historical-application-lookup": 0.5},
 		func(rt *rapid.T, c *harness.Case) {
 			w := genAppWorld(rt, wt)
 			c.Opf("%s", w.describe())
@@ -113,6 +113,19 @@ func TestC20(t *testing.T) {
 					}
 				}
 				checkPool("after commit")
+				// the node also answers queries while the chain runs: now and then somebody looks an application up at a past
+				// height (RPC query route, historical context) - that must leave the live records and the pool alone
+				if rapid.Bool().Draw(rt, "historicalLookup") {
+					addrs := sortedKeys(before)
+					if len(addrs) > 0 && n.Height > 1 {
+						a := addrs[rapid.IntRange(0, len(addrs)-1).Draw(rt, "lookupApp")]
+						qh := int64(rapid.IntRange(1, int(n.Height)-1).Draw(rt, "lookupHeight"))
+						pa := *n.App
+						_, _ = pa.QueryApp(a, qh)
+						c.Opf("  query application %s.. at past height %d", a[:8], qh)
+						c.Label("historical-application-lookup")
+					}
+				}
 			}
 		})
 }
